@@ -52,11 +52,14 @@ Complex variant (additive; spec keys "variant" + "complex_params", used by specs
 """
 import ast
 import fractions
+import os
 import struct
+import sys
 
+sys.path.insert(0, os.path.dirname(os.path.abspath(__file__)))
+import normalize  # noqa: E402
 
-class Refusal(Exception):
-    pass
+Refusal = normalize.Refusal        # one exception type for the pre-passes and the translator
 
 
 UFUNCS = {
@@ -119,13 +122,19 @@ class Translator:
                 return f"({e.value} : ℝ)" if R else f"({e.value} : Float)" if e.value >= 0 else f"(-{-e.value} : Float)"
             if isinstance(e.value, float):
                 if R:
-                    seg = ast.get_source_segment(self.src, e) or repr(e.value)
-                    return real_of_literal(seg, e.value)
+                    # the source text of the literal travels with the node (normalize.annotate_literals), so that
+                    # nodes moved by the pre-passes (expanded helpers) keep their exact decimal value
+                    return real_of_literal(normalize.literal_text(e), e.value)
                 return f"(Float.ofBits 0x{float_bits(e.value):016X})"
             raise Refusal(f"literal {e.value!r}")
         if isinstance(e, ast.Name):
             if e.id not in env:
                 raise Refusal(f"unknown name {e.id}")
+            k = env[e.id]
+            if k == "shape":
+                raise Refusal(f"shape-typed local {e.id} is used as a value (it may only feed reshape / np.ones / np.zeros / other shape expressions)")
+            if k in ("none", "kwargs", "bool") or (isinstance(k, str) and k.startswith("tparam:")):
+                raise Refusal(f"name {e.id} (kind {k}) used as a number")
             return san(e.id)
         if isinstance(e, ast.Attribute):
             if isinstance(e.value, ast.Name) and e.value.id == "constants":
@@ -146,6 +155,14 @@ class Translator:
             if type(e.op) not in ops:
                 raise Refusal(f"operator {type(e.op).__name__}")
             return f"({self.expr(e.left, d, env)} {ops[type(e.op)]} {self.expr(e.right, d, env)})"
+        if isinstance(e, ast.IfExp) and self.scalar_test(e.test) is not None:
+            # `v[0] if <argument is a scalar> else v`: the scalar path wrapped the argument into a 1-element array
+            # (checked where the wrap happens) and takes the only element back out — the pointwise value itself
+            if not (isinstance(e.body, ast.Subscript) and isinstance(e.body.slice, ast.Constant) and e.body.slice.value == 0
+                    and ast.unparse(e.body.value) == ast.unparse(e.orelse)):
+                raise Refusal(f"test on the scalar-ness of an argument that is not the unwrap `v[0] if … else v`: {ast.unparse(e)}")
+            self.notes.append(f"scalar/array glue: {ast.unparse(e)} is the pointwise value")
+            return self.expr(e.orelse, d, env)
         if isinstance(e, ast.IfExp):
             return f"(if {self.cond(e.test, d, env)} then {self.expr(e.body, d, env)} else {self.expr(e.orelse, d, env)})"
         if isinstance(e, ast.Call):
@@ -159,7 +176,7 @@ class Translator:
             k = env.get(e.value.id, "")
             if isinstance(k, str) and k.startswith("tparam:") and isinstance(e.slice, ast.Constant) \
                     and isinstance(e.slice.value, int) and 0 <= e.slice.value < int(k[7:]):
-                return f"{san(e.value.id)}_{e.slice.value}"
+                return f"{san(self.tname(e.value.id))}_{e.slice.value}"
             if k == "num" and isinstance(e.slice, ast.Name) and env.get(e.slice.id) == "bool":
                 # v[m] for a boolean mask m: pointwise the element itself (meaningful where m holds)
                 return san(e.value.id)
@@ -420,8 +437,17 @@ class Translator:
             if n == "arctan2" and len(args) == 2:
                 y, x = (self.expr(a, d, env) for a in args)
                 return f"(Complex.arg ⟨{x}, {y}⟩)" if R else f"(Float.atan2 {y} {x})"
-            if n in ("real", "atleast_1d", "asarray") and len(args) == 1:
-                return self.expr(args[0], d, env)      # shape / dtype glue: pointwise identity
+            if n in ("real", "atleast_1d", "asarray", "array", "asanyarray", "ascontiguousarray") and len(args) == 1:
+                a0 = args[0]
+                if isinstance(a0, (ast.List, ast.Tuple)) and len(a0.elts) == 1 and not isinstance(a0.elts[0], ast.Starred) \
+                        and n != "real":
+                    # np.asarray([x]) / np.array([x]): the 1-element array holding x — pointwise x itself
+                    self.notes.append(f"singleton wrap {ast.unparse(e)}: pointwise identity")
+                    a0 = a0.elts[0]
+                return self.expr(a0, d, env)      # shape / dtype glue: pointwise identity
+            if n == "reshape" and len(args) == 2:
+                self.check_shape_args(args[1:], env, ast.unparse(e))
+                return self.expr(args[0], d, env)      # shape glue: pointwise identity
             if n == "imag" and len(args) == 1:
                 self.expr(args[0], d, env)           # must be translatable
                 return "(0 : ℝ)" if R else "(0 : Float)"   # real-valued model
@@ -430,7 +456,8 @@ class Translator:
                 ok = (isinstance(args[0], ast.Attribute) and args[0].attr == "shape" and isinstance(args[0].value, ast.Name)
                       and env.get(args[0].value.id) == "num") or \
                      (isinstance(args[0], ast.Call) and ast.unparse(args[0].func) == "np.shape" and len(args[0].args) == 1
-                      and isinstance(args[0].args[0], ast.Name) and env.get(args[0].args[0].id) == "num")
+                      and isinstance(args[0].args[0], ast.Name) and env.get(args[0].args[0].id) == "num") or \
+                     self.is_shape_expr(args[0], env)
                 if not ok:
                     raise Refusal(f"np.{n}({sh}): shape is not that of a parameter/local")
                 v = 1 if n == "ones" else 0
@@ -462,6 +489,7 @@ class Translator:
             return self.expr(f.value, d, env)          # shape glue: pointwise identity
         if isinstance(f, ast.Attribute) and f.attr == "reshape" \
                 and not (isinstance(f.value, ast.Name) and f.value.id == "np"):
+            self.check_shape_args(args, env, ast.unparse(e))
             return self.expr(f.value, d, env)          # shape glue: pointwise identity
         if isinstance(f, ast.Name):
             if f.id in env and env[f.id] == "fun":
@@ -484,7 +512,8 @@ class Translator:
                 return "(" + f"{ns}.{san(f.id)}{suffix} " + " ".join(self.expr(a, d, env) for a in args) + ")"
             if f.id == "float" and len(args) == 1:
                 return self.expr(args[0], d, env)
-            raise Refusal(f"call of unknown function {f.id}")
+            why = getattr(self, "inline_failed", {}).get(f.id)
+            raise Refusal(f"call of unknown function {f.id}" + (f" (not expanded in place: {why})" if why else ""))
         raise Refusal(f"call {ast.unparse(e)}")
 
     def call_ext(self, e, d, env):
@@ -516,7 +545,7 @@ class Translator:
             elif k.startswith("tparam:"):
                 if not (isinstance(a, ast.Name) and env.get(a.id) == k):
                     raise Refusal(f"call {ast.unparse(e)}: tuple parameter {kinds[i][0]} receives {ast.unparse(a)}")
-                out += [f"{san(a.id)}_{j}" for j in range(int(k[7:]))]
+                out += [f"{san(self.tname(a.id))}_{j}" for j in range(int(k[7:]))]
             else:
                 raise Refusal(f"call {ast.unparse(e)}: parameter kind {k}")
             i += 1
@@ -525,6 +554,183 @@ class Translator:
                 raise Refusal(f"call {ast.unparse(e)}: parameter {name} not supplied")
         ns = "TR" if R else "TF"
         return "(" + f"{ns}.{san(spec.get('lean_name', e.func.id))} " + " ".join(out) + ")"
+
+    def is_identity_glue_stmt(self, st):
+        """v = x.reshape(…) / x.ravel() / np.asarray(x) / np.reshape(x, …): relayout of one value, pointwise identity"""
+        if not (isinstance(st, ast.Assign) and len(st.targets) == 1 and isinstance(st.targets[0], ast.Name)
+                and isinstance(st.value, ast.Call) and not st.value.keywords):
+            return False
+        f, a = st.value.func, st.value.args
+        if isinstance(f, ast.Attribute) and isinstance(f.value, ast.Name) and f.value.id != "np" \
+                and f.attr in ("reshape", "ravel", "flatten", "copy"):
+            return True
+        return isinstance(f, ast.Attribute) and isinstance(f.value, ast.Name) and f.value.id == "np" \
+            and f.attr in ("reshape", "asarray", "atleast_1d", "array", "ravel") and a and isinstance(a[0], ast.Name)
+
+    # ---------------------------------------------------------- aliases of tuple parameters
+    def tname(self, name):
+        """the tuple parameter a local stands for (`ell = ellipsoid` makes `ell` another name of the parameter)"""
+        return getattr(self, "talias", {}).get(name, name)
+
+    # ---------------------------------------------------------- shape-typed expressions / statements (inference)
+    SHAPE_ATTRS = ("shape", "size", "ndim")
+
+    def is_arrayish(self, e, env):
+        """a value that has a shape: a numeric parameter / local (possibly through identity glue)"""
+        if isinstance(e, ast.Name):
+            k = env.get(e.id)
+            return k in ("num", "cparam", "cnum") or (isinstance(k, str) and k.startswith("tuple:"))
+        if isinstance(e, ast.Call) and isinstance(e.func, ast.Attribute) and isinstance(e.func.value, ast.Name) \
+                and e.func.value.id == "np" and e.func.attr in ("asarray", "atleast_1d", "array", "asanyarray") and len(e.args) == 1:
+            return self.is_arrayish(e.args[0], env)
+        if isinstance(e, ast.Call) and isinstance(e.func, ast.Attribute) and e.func.attr in ("ravel", "flatten", "copy", "reshape"):
+            return self.is_arrayish(e.func.value, env)
+        return False
+
+    def is_shape_expr(self, e, env):
+        """an expression built only from .shape / .ndim / .size / len(…) / np.shape(…) of values, integer literals,
+        shape-typed locals, tuples / lists, + - * // and indexing of such: its value depends on the SHAPES of the
+        arguments only, never on their elements"""
+        if isinstance(e, ast.Constant):
+            return isinstance(e.value, int) and not isinstance(e.value, bool)
+        if isinstance(e, ast.Name):
+            return env.get(e.id) == "shape"
+        if isinstance(e, ast.Attribute) and e.attr in self.SHAPE_ATTRS:
+            return self.is_arrayish(e.value, env)
+        if isinstance(e, ast.Call) and not e.keywords:
+            f = ast.unparse(e.func)
+            if f in ("len", "np.shape", "np.size", "np.ndim") and len(e.args) == 1:
+                return self.is_arrayish(e.args[0], env) or self.is_shape_expr(e.args[0], env)
+            if f in ("tuple", "list") and len(e.args) <= 1:
+                return all(self.is_shape_expr(a, env) for a in e.args)
+            if f == "range" and 1 <= len(e.args) <= 3:
+                return all(self.is_shape_expr(a, env) for a in e.args)
+            return False
+        if isinstance(e, (ast.Tuple, ast.List)):
+            return all(not isinstance(x, ast.Starred) and self.is_shape_expr(x, env) for x in e.elts)
+        if isinstance(e, ast.BinOp) and isinstance(e.op, (ast.Add, ast.Sub, ast.Mult, ast.FloorDiv)):
+            return self.is_shape_expr(e.left, env) and self.is_shape_expr(e.right, env)
+        if isinstance(e, ast.UnaryOp) and isinstance(e.op, (ast.USub, ast.UAdd)):
+            return self.is_shape_expr(e.operand, env)
+        if isinstance(e, ast.Subscript):
+            sl = e.slice
+            if isinstance(sl, ast.Slice):
+                ok = all(x is None or self.is_shape_expr(x, env) for x in (sl.lower, sl.upper, sl.step))
+            else:
+                ok = self.is_shape_expr(sl, env)
+            return ok and self.is_shape_expr(e.value, env)
+        if isinstance(e, (ast.ListComp, ast.GeneratorExp)) and len(e.generators) == 1:
+            g = e.generators[0]
+            if g.ifs or g.is_async or not isinstance(g.target, ast.Name) or not self.is_shape_expr(g.iter, env):
+                return False
+            env2 = dict(env)
+            env2[g.target.id] = "shape"
+            return self.is_shape_expr(e.elt, env2)
+        return False
+
+    def check_shape_args(self, args, env, what):
+        """arguments of reshape: shape-typed expressions, or names the translator does not bind at all (shape locals
+        of declared glue).  A number / mask flowing into a shape is refused."""
+        for a in args:
+            for nd in ast.walk(a):
+                if isinstance(nd, ast.Name) and env.get(nd.id) in ("bool", "fun", "none", "kwargs"):
+                    raise Refusal(f"reshape argument mentions {nd.id}: {what}")
+            bound = [nd.id for nd in ast.walk(a) if isinstance(nd, ast.Name) and nd.id in env and nd.id not in ("np", "len", "tuple", "list")]
+            if bound and not self.is_shape_expr(a, env):
+                raise Refusal(f"reshape argument is not a shape-typed expression: {what}")
+
+    def shape_stmt(self, st, env):
+        """True (and the targets become shape-typed in env) when the statement only computes shapes: it assigns /
+        mutates shape-typed locals from shape-typed expressions.  Such statements are skipped: nothing they bind can
+        reach a number (expr refuses a shape-typed name), they can only feed reshape / np.ones / np.zeros."""
+        if isinstance(st, ast.Assign) and all(isinstance(t, ast.Name) for t in st.targets) and self.is_shape_expr(st.value, env):
+            for t in st.targets:
+                env[t.id] = "shape"
+            return True
+        if isinstance(st, ast.Assign) and len(st.targets) == 1 and isinstance(st.targets[0], ast.Subscript) \
+                and isinstance(st.targets[0].value, ast.Name) and env.get(st.targets[0].value.id) == "shape" \
+                and not isinstance(st.targets[0].slice, ast.Slice) and self.is_shape_expr(st.targets[0].slice, env) \
+                and self.is_shape_expr(st.value, env):
+            return True
+        if isinstance(st, ast.AugAssign) and isinstance(st.target, ast.Name) and env.get(st.target.id) == "shape" \
+                and isinstance(st.op, (ast.Add, ast.Sub, ast.Mult, ast.FloorDiv)) and self.is_shape_expr(st.value, env):
+            return True
+        if isinstance(st, ast.Expr) and isinstance(st.value, ast.Call) and isinstance(st.value.func, ast.Attribute) \
+                and isinstance(st.value.func.value, ast.Name) and env.get(st.value.func.value.id) == "shape" \
+                and st.value.func.attr in ("append", "extend", "insert", "reverse") and not st.value.keywords \
+                and all(self.is_shape_expr(a, env) for a in st.value.args):
+            return True
+        if isinstance(st, ast.For) and not st.orelse and isinstance(st.target, ast.Name) and self.is_shape_expr(st.iter, env):
+            env2 = dict(env)
+            env2[st.target.id] = "shape"
+            if all(self.shape_stmt(b, env2) for b in st.body):
+                for k2, v2 in env2.items():
+                    if v2 == "shape":
+                        env[k2] = "shape"
+                return True
+        return False
+
+    # ---------------------------------------------------------- scalar-versus-array glue
+    def scalar_test(self, e):
+        """the parameter p when the test asks whether the ARGUMENT p is a scalar (not an array):
+        isinstance(p, Number) / isinstance(p, (int, float)) / np.isscalar(p) / np.ndim(p) == 0, or a flag assigned once
+        from such a test.  Pointwise these tests say nothing about the value — both paths must be the same function."""
+        params = [p for p, k in getattr(self, "pykinds", []) if k == "num"]
+        if isinstance(e, ast.Name) and e.id in getattr(self, "sflags", {}):
+            return self.sflags[e.id]
+        if isinstance(e, ast.Call) and isinstance(e.func, ast.Name) and e.func.id == "isinstance" and len(e.args) == 2 \
+                and not e.keywords and isinstance(e.args[0], ast.Name) and e.args[0].id in params \
+                and e.args[0].id not in getattr(self, "reassigned_before", set()):
+            t = e.args[1]
+            names = [ast.unparse(x) for x in (t.elts if isinstance(t, ast.Tuple) else [t])]
+            if names and all(n in ("Number", "numbers.Number", "numbers.Real", "Real", "float", "int", "np.number",
+                                   "np.floating", "np.integer", "np.generic") for n in names):
+                return e.args[0].id
+        if isinstance(e, ast.Call) and ast.unparse(e.func) == "np.isscalar" and len(e.args) == 1 and not e.keywords \
+                and isinstance(e.args[0], ast.Name) and e.args[0].id in params:
+            return e.args[0].id
+        if isinstance(e, ast.Compare) and len(e.ops) == 1 and isinstance(e.ops[0], ast.Eq) \
+                and isinstance(e.comparators[0], ast.Constant) and e.comparators[0].value == 0 \
+                and isinstance(e.left, ast.Call) and ast.unparse(e.left.func) == "np.ndim" and len(e.left.args) == 1 \
+                and isinstance(e.left.args[0], ast.Name) and e.left.args[0].id in params:
+            return e.left.args[0].id
+        return None
+
+    def is_singleton_wrap(self, e, p):
+        """np.asarray([p]) / np.array([p]) / np.atleast_1d(p)"""
+        if not (isinstance(e, ast.Call) and isinstance(e.func, ast.Attribute) and isinstance(e.func.value, ast.Name)
+                and e.func.value.id == "np" and len(e.args) == 1 and not e.keywords):
+            return False
+        a = e.args[0]
+        if e.func.attr in ("asarray", "array", "asanyarray", "atleast_1d") and isinstance(a, (ast.List, ast.Tuple)) \
+                and len(a.elts) == 1 and isinstance(a.elts[0], ast.Name) and a.elts[0].id == p:
+            return True
+        return e.func.attr == "atleast_1d" and isinstance(a, ast.Name) and a.id == p
+
+    def scalar_branch_is_glue(self, st, p, fname, params):
+        """the body of `if <p is a scalar>:` is pure scalar->array glue:
+          (a) it only wraps p into a 1-element array (`p = np.asarray([p])`), or
+          (b) it delegates to the function itself on the wrapped argument and takes the only element:
+              `ret_ = f(np.asarray([p]))[0]` (the other arguments passed through unchanged)."""
+        body = st.body
+        if body and all(isinstance(b, ast.Assign) and len(b.targets) == 1 and isinstance(b.targets[0], ast.Name)
+                        and b.targets[0].id == p and self.is_singleton_wrap(b.value, p) for b in body):
+            return "wrap"
+        if len(body) == 1 and isinstance(body[0], ast.Assign) and len(body[0].targets) == 1 \
+                and isinstance(body[0].targets[0], ast.Name) and body[0].targets[0].id.startswith(normalize.RET):
+            v = body[0].value
+            if isinstance(v, ast.Subscript) and isinstance(v.slice, ast.Constant) and v.slice.value == 0 \
+                    and isinstance(v.value, ast.Call) and isinstance(v.value.func, ast.Name) and v.value.func.id == fname \
+                    and not v.value.keywords and len(v.value.args) == len(params):
+                ok = True
+                for q, a in zip(params, v.value.args):
+                    if q == p:
+                        ok = ok and self.is_singleton_wrap(a, p)
+                    else:
+                        ok = ok and isinstance(a, ast.Name) and a.id == q
+                if ok:
+                    return "delegate"
+        return None
 
     def cond(self, e, d, env):
         """boolean expression: Prop (real, classical if) or Bool (float)"""
@@ -593,14 +799,14 @@ class Translator:
             return self.static_names[e.id]
         if isinstance(e, ast.Compare) and len(e.ops) == 1 and isinstance(e.ops[0], (ast.Is, ast.IsNot)) \
                 and isinstance(e.left, ast.Name) and isinstance(e.comparators[0], ast.Constant) and e.comparators[0].value is None:
-            k = getattr(self, "presence", {}).get(e.left.id)
+            k = getattr(self, "presence", {}).get(self.tname(e.left.id))
             if k is None:
                 return None
             return (k == "absent") == isinstance(e.ops[0], ast.Is)
-        if isinstance(e, ast.Call) and isinstance(e.func, ast.Name) and e.func.id == "all" and len(e.args) == 1 \
-                and isinstance(e.args[0], ast.GeneratorExp) and len(e.args[0].generators) == 1:
+        if isinstance(e, ast.Call) and isinstance(e.func, ast.Name) and e.func.id in ("all", "any") and len(e.args) == 1 \
+                and not e.keywords and isinstance(e.args[0], (ast.GeneratorExp, ast.ListComp)) and len(e.args[0].generators) == 1:
             g = e.args[0].generators[0]
-            if isinstance(g.iter, ast.List) and isinstance(g.target, ast.Name) and not g.ifs \
+            if isinstance(g.iter, (ast.List, ast.Tuple)) and isinstance(g.target, ast.Name) and not g.ifs \
                     and all(isinstance(x, ast.Name) for x in g.iter.elts):
                 vals = []
                 for x in g.iter.elts:
@@ -609,9 +815,13 @@ class Translator:
                         if isinstance(nd, ast.Name) and nd.id == g.target.id:
                             nd.id = x.id
                     vals.append(self.static(sub))
-                if any(v is False for v in vals):
-                    return False
-                return True if all(v is True for v in vals) else None
+                if e.func.id == "all":
+                    if any(v is False for v in vals):
+                        return False
+                    return True if all(v is True for v in vals) else None
+                if any(v is True for v in vals):
+                    return True
+                return False if all(v is False for v in vals) else None
         if isinstance(e, ast.BoolOp):
             vals = [self.static(v) for v in e.values]
             if isinstance(e.op, ast.And):
@@ -662,7 +872,9 @@ class Translator:
         for st in stmts:
             ctx = {"guards": None, "ret": None, "rettuple": 0, "top": False, "ty": ty, "assigned": assigned}
             before = set(env)
-            if self.stmt_ext(st, lets, env, d, ctx, pre=True):
+            if self.shape_stmt(st, env):
+                self.notes.append(f"shape glue (inferred): {ast.unparse(st).splitlines()[0]}")
+            elif self.stmt_ext(st, lets, env, d, ctx, pre=True):
                 pass
             elif isinstance(st, ast.Assign) and len(st.targets) == 1 and isinstance(st.targets[0], ast.Name):
                 tgt, v = st.targets[0], st.value
@@ -747,7 +959,8 @@ class Translator:
                       and all(isinstance(x, ast.Name) and env.get(x.id) == "num" for x in gen.iter.elts)
                       and isinstance(ge.elt, ast.Call) and isinstance(ge.elt.func, ast.Attribute) and ge.elt.func.attr == "reshape"
                       and isinstance(ge.elt.func.value, ast.Name) and ge.elt.func.value.id == gen.target.id
-                      and len(ge.elt.args) == 1 and isinstance(ge.elt.args[0], ast.Name) and ge.elt.args[0].id not in env)
+                      and len(ge.elt.args) == 1 and isinstance(ge.elt.args[0], ast.Name)
+                      and (ge.elt.args[0].id not in env or env[ge.elt.args[0].id] == "shape"))
                 if not ok:
                     raise Refusal(f"return form: {first}")
                 self.notes.append(f"reshape glue on the returned tuple: {first}")
@@ -1082,6 +1295,7 @@ class Translator:
         self.cur_sig = list(sig)
         self.cur_sig_names = [x.split(" : ")[0].lstrip("(") for x in sig]
         self.cur_name = san(fn.name)
+        self.py_name = getattr(fn, "_py_name", fn.name)     # the Python name (a second reading may carry another Lean name)
         self.aux, self._loops = [], 0
         self.aux_late = []
         self.spec = spec
@@ -1095,16 +1309,59 @@ class Translator:
         rettuple = 0
 
         self.static_names = {}
+        self.sflags = {}
+        self.talias = {}
+        store_count = {}
+        for nd in ast.walk(fn):
+            if isinstance(nd, ast.Name) and isinstance(nd.ctx, (ast.Store, ast.Del)):
+                store_count[nd.id] = store_count.get(nd.id, 0) + 1
+        num_params = [p for p, k in self.pykinds if k == "num"]
 
         def flatten(stmts):
             out = []
             for st in stmts:
-                # flag = <presence test decided by the model>   (e.g. `hints = za0 is not None and …`)
+                if ast.unparse(st) in glue:
+                    # declared glue is skipped verbatim by the main loop; what it binds is still learnt, so that a
+                    # REWRITTEN neighbour statement that mentions the flag / shape can be understood by inference
+                    if isinstance(st, ast.Assign) and len(st.targets) == 1 and isinstance(st.targets[0], ast.Name) \
+                            and store_count.get(st.targets[0].id) == 1 and self.scalar_test(st.value) is not None:
+                        self.sflags[st.targets[0].id] = self.scalar_test(st.value)
+                    out.append(st)
+                    continue
+                # flag = <test decided by the model>   (e.g. `hints = za0 is not None and …`, `real = np.all(np.isreal(n1))`);
+                # the flag must be assigned exactly once in the function
                 if (isinstance(st, ast.Assign) and len(st.targets) == 1 and isinstance(st.targets[0], ast.Name)
-                        and isinstance(st.value, (ast.BoolOp, ast.Compare)) and self.presence
+                        and not isinstance(st.value, (ast.Name, ast.Constant))
+                        and store_count.get(st.targets[0].id) == 1 and st.targets[0].id not in [p for p, _ in self.pykinds]
                         and self.static(st.value) is not None):
                     self.static_names[st.targets[0].id] = self.static(st.value)
                     notes.append(f"flag decided by the model: {st.targets[0].id} = {self.static_names[st.targets[0].id]} ({ast.unparse(st.value)})")
+                    continue
+                # flag = <is the ARGUMENT a scalar?>   (scalar-versus-array glue)
+                if (isinstance(st, ast.Assign) and len(st.targets) == 1 and isinstance(st.targets[0], ast.Name)
+                        and store_count.get(st.targets[0].id) == 1 and self.scalar_test(st.value) is not None):
+                    self.sflags[st.targets[0].id] = self.scalar_test(st.value)
+                    notes.append(f"scalar/array flag: {st.targets[0].id} = {ast.unparse(st.value)}")
+                    continue
+                if isinstance(st, ast.If) and self.scalar_test(st.test) is not None:
+                    p = self.scalar_test(st.test)
+                    how = self.scalar_branch_is_glue(st, p, self.py_name, [q for q, _ in self.pykinds])
+                    if how is None:
+                        raise Refusal(f"`if {ast.unparse(st.test)}`: the scalar branch is neither a 1-element wrap of {p} nor the "
+                                      f"delegation {self.py_name}(np.asarray([{p}]))[0]")
+                    if how == "wrap" and st.orelse:
+                        raise Refusal(f"`if {ast.unparse(st.test)}`: wrap of {p} with an else branch")
+                    notes.append(f"scalar/array glue ({how}): `if {ast.unparse(st.test)}` — the scalar path is the array path on the "
+                                 f"1-element array; pointwise the same function")
+                    out += flatten(st.orelse)
+                    continue
+                # try: <shape glue> except …: raise …      — the model describes the path on which nothing is raised
+                if isinstance(st, ast.Try) and not st.finalbody and not st.orelse and st.handlers \
+                        and all(h.body and isinstance(h.body[-1], ast.Raise) for h in st.handlers) \
+                        and all(self.is_identity_glue_stmt(b) for b in st.body):
+                    notes.append("try/except around shape glue; every handler raises (shape-error path, not modelled): "
+                                 + "; ".join(ast.unparse(b) for b in st.body))
+                    out += flatten(st.body)
                     continue
                 if isinstance(st, ast.If):
                     sv = self.static(st.test)
@@ -1122,7 +1379,7 @@ class Translator:
                     self.note_kinds(st)
                 out.append(st)
             return out
-        body = flatten(body)
+        body = normalize.collapse_ret(flatten(body))
         guard_nlets, prev_n = [], 0
         for st in body:
             while len(guard_nlets) < len(guards):
@@ -1132,11 +1389,22 @@ class Translator:
             first = text.splitlines()[0]
             if text in glue:           # the WHOLE statement must be the declared glue
                 notes.append(f"glue skipped: {first}")
+                self.shape_stmt(st, env)        # what it binds is learnt when it is recognisably a shape
                 continue
-            if first in {g.splitlines()[0] for g in glue}:
-                raise Refusal(f"declared glue statement changed: {first}")
+            # (a statement that only resembles declared glue gets no special treatment: it is translated by the
+            #  ordinary rules below — inference — or refused)
             if ret is not None:
                 raise Refusal(f"statement after return: {first}")
+            if self.shape_stmt(st, env):
+                notes.append(f"shape glue (inferred): {first}")
+                continue
+            # x = <tuple parameter>: another name of the parameter
+            if isinstance(st, ast.Assign) and len(st.targets) == 1 and isinstance(st.targets[0], ast.Name) \
+                    and isinstance(st.value, ast.Name) and str(env.get(st.value.id, "")).startswith("tparam:"):
+                self.talias[st.targets[0].id] = self.tname(st.value.id)
+                env[st.targets[0].id] = env[st.value.id]
+                notes.append(f"alias of tuple parameter: {first}")
+                continue
             ctx = {"guards": guards, "ret": None, "rettuple": 0, "top": True, "ty": ty}
             if self.stmt_ext(st, lets, env, d, ctx, pre=True):
                 if ctx["ret"] is not None:
